@@ -536,6 +536,52 @@ func runBDN(t *core.Tape, tier string, info *core.RunInfo) *core.Violation {
 	if err != nil || !refPub.Equal(aggPub) {
 		return viol("mask", "bdn/equal-bits-different-key/"+c.name+"/"+routes[route], "two masks with equal bits give different aggregate keys (route %s) err=%v", routes[route], err)
 	}
+	// a base mask is meant to be cloned and reused (NewMask's documentation): a series of aggregations over
+	// clones of ONE base, with changing participant sets, must each give the key of a freshly built mask
+	if n >= 2 {
+		base, _ := bdn.NewMask(keyG, pubs, nil)
+		rounds := 2 + t.Intn("cfg.reuse", 3)
+		for r := 0; r < rounds; r++ {
+			cm := base.Clone()
+			fresh, _ := bdn.NewMask(keyG, pubs, nil)
+			any := false
+			var rs [][]byte
+			for i := 0; i < n; i++ {
+				on := t.Bool("cfg.reuse", 500)
+				if r == 0 {
+					on = true // the first aggregation enables everybody, later ones drop prefixes
+				}
+				if on {
+					any = true
+					_ = cm.SetBit(i, true)
+					_ = fresh.SetBit(i, true)
+					sg, _ := sc.Sign(privs[i], msg)
+					rs = append(rs, sg)
+				}
+			}
+			if !any {
+				continue
+			}
+			kc, err1 := sc.AggregatePublicKeys(cm)
+			kf, err2 := sc.AggregatePublicKeys(fresh)
+			if err1 != nil || err2 != nil {
+				return viol("aggregate", "bdn/aggregate-error/"+c.name+"/reuse", "%v %v", err1, err2)
+			}
+			if !kc.Equal(kf) {
+				return viol("mask", "bdn/reused-base-mask-gives-other-key/"+c.name, "aggregation %d over a clone of a reused base mask (bits %x) gives another key than a freshly built mask with the same bits", r, cm.Mask())
+			}
+			as, err := sc.AggregateSignatures(rs, cm)
+			if err != nil {
+				return viol("aggregate", "bdn/aggregate-error/"+c.name+"/reuse", "%v", err)
+			}
+			ab, _ := as.MarshalBinary()
+			if err := sc.Verify(kc, msg, ab); err != nil {
+				return viol("aggregate", "bdn/aggregate-does-not-verify/"+c.name+"/reused-base", "aggregation %d over a clone of a reused base mask (bits %x) does not verify: %v", r, cm.Mask(), err)
+			}
+			info.Events++
+		}
+		info.Faults["base-mask-reused"]++
+	}
 	// under no other mask or message
 	other := append(kit.CopyBytes(msg), 1)
 	if sc.Verify(aggPub, other, sb) == nil {
